@@ -47,6 +47,36 @@ HISTORY = {
     'C08-5': 'caught; C08 also got bulky metadata values',
     'C09-5': 'missed at first (conversions ran under TZ=UTC only); C09 shards now run under different process time zones',
     'C10-5': 'caught by C10 (rollback by a refused update) and by the committed-equals-visible monitor of C07',
+    'C09-6': 'missed at first (configs were only built from descriptions); C09 got the received-then-edited route, which also exposed a genuine defect (fix 9844d05)',
+    'C11-5': 'missed at first (every trial reported its metrics in configuration order under names m0..); C11 histories got per-trial report orders, naming schemes and shuffled configuration order',
+    'C11-6': 'missed at first (at most one safety metric); C11 histories got 0..3 safety metrics, each reported or not per trial',
+    'C13-6': 'missed at first (no history reported a non-finite metric); C13 scripts got unusual metric values and a restart-point comparison',
+    'C16-5': 'missed at first (one fresh study and one handle per case); C16 got the study life-cycle family (several handles, delete / re-create with a related space)',
+    'C03-5': 'missed at first (non-linear scales only on positive ranges); C03 got the hostile-scale slice, which exposed a genuine defect (fix 4ca1f1c)',
+    'C03-6': 'missed at first (defaults drawn from the domain, seeding observed directly only); C03 got infeasible defaults and seeding through policy / factory / service routes; a related genuine defect was repaired (fix 2aedc8f)',
+    'C14-5': 'missed at first (every execution rebuilt all objects); C14 got factory-built benchmarks with one factory and runner serving several seeded runs',
+    'C14-6': 'missed by C14 at first (caught by C13); C14 got Eagle cases that reach pool refill, hosted with a policy restored per request',
+    'C17-5': 'missed by C17 at first (caught by C09); C17 got child names re-declared under other parent values',
+    'C17-6': 'missed at first (only select() builders and to_proto() were used); C17 got the compact multi-valued spec and the factory(children=...) routes',
+    'C19-5': 'missed at first (1-6 priors or more than the pool, never around the pool size; no score whose optimum the search cannot find); C19 got needle scores, planted prior positions and near-pool prior counts',
+    'C19-6': 'missed at first (batch sizes dividing 100, at most 11 features); C19 got batch sizes 7/8/30/64, wide layouts and a capped pool',
+    'C18-5': 'missed at first (only output_warpers was driven); C18 got the label step of the multi-metric GP designer compared per metric column with a fresh pipeline',
+    'C18-6': 'missed at first (re-used objects were only compared on warp()); the inverse of a re-used object is now compared with a fresh one',
+    'C20-6': 'missed by C20 at first (caught by C14); C20 compares seeded noise across two fresh interpreters with different hash salts',
+    'C12-5': 'would have been missed (infeasibility reason always non-empty); C12 histories got empty reasons before this seed was evaluated',
+    'C12-6': 'would have been missed (no concurrency in C12); C12 got a completion by another worker injected between two reads of a running request',
+    'C05-7': 'missed at first (needs a lock-free read between a write and its COMMIT); C04 got pure reads in the concurrent sets with SQL statement-level yield points',
+    'C05-8': 'not caught by C05 (its reference shares the defect); caught by C07 (operation differs after delete and re-create)',
+    'C02-8': 'not caught by C02; caught by C07 (two owners with the same study id)',
+    'C06-7': 'caught; it also showed that the client probe was too strict (a successful retry of a transient failure is legitimate): injected faults now persist for the whole request, and the Pythia interface\'s own error classes are among the exception types',
+    'C06-8': 'would have been missed (all runs under TZ=UTC); every shard of every check now runs under its own process time zone',
+    'C07-8': 'missed at first (needs decide / delete / re-issue the id / ask again); C07 programs got the scripted id-reuse tail',
+    'C08-8': 'would have been missed (programs are sequential); C08 got the probe with two clients on two different studies at the same time',
+    'C04-8': 'missed at first (stale state only in server memory, pre-emption right after a datastore call); C04 got sequential follow-up calls after every schedule, a yield after the datastore lock is released and a paused-study prefix',
+    'C10-7': 'not caught by C10 (its harness algorithm always delivers); caught by C06 / C02 (zero delivery with a state delta)',
+    'C10-8': 'would have been missed (deltas were root-positioned Metadata objects); C10 hands over positioned views',
+    'C12-7': 'missed at first (needs several delivered newest trials deleted); C12 histories got runs of newest-trial deletions',
+    'C12-8': 'missed at first (no study re-creation in C12); C12 got the re-create step',
     'C01-1': 'a concurrency change: not visible to the sequential C01 check, caught by C04 (write monitor + serialisability)',
 }
 
@@ -110,6 +140,24 @@ def main():
     for r in rows:
       fh.write('| ' + ' | '.join(x.replace('|', '/') for x in r) + ' |\n')
   print(f'kept {len(rows)} seeds')
+  rounds = {}
+  for r in rows:
+    k = (int(r[0].split('-')[1]) + 1) // 2
+    d = rounds.setdefault(k, {'n': 0, 'own': 0, 'other_only': 0, 'none': 0, 'strengthened': 0})
+    d['n'] += 1
+    prop = r[0].split('-')[0]
+    caught = [c.strip() for c in r[2].split(',') if c.strip() and c.strip() != '-']
+    if prop in caught:
+      d['own'] += 1
+    elif caught:
+      d['other_only'] += 1
+    else:
+      d['none'] += 1
+    if r[4] and ('missed' in r[4] or 'INCONCLUSIVE' in r[4] or 'too coarse' in r[4] or 'hung' in r[4]):
+      d['strengthened'] += 1
+  with open(os.path.join(DST, 'SUMMARY.json'), 'w') as fh:
+    json.dump(rounds, fh, indent=1)
+  print(rounds)
 
 
 if __name__ == '__main__':
